@@ -449,46 +449,79 @@ def d2_roles(ctx, idx):
                     r.ok(fi.qualname + ': comparer', "answer['expect']['comparer']", lib.loc(fi, ccall))
                 else:
                     r.undecided(fi.qualname + ': comparer', 'comparer argument not recognised: %s' % short(c2), lib.loc(fi, ccall))
-        # hop 3: compare_evaluations -> comparer(author, student, utils)
+        # hop 3: compare_evaluations -> comparer(author, student, utils), decided by interpreting the body on a model
         fi = idx.func(MM + '.compare_evaluations')
         if len(fi.params) != 5:
             raise AnalysisError('compare_evaluations: unexpected parameter list %s' % fi.params)
-        _, p_auth, p_stud, p_cmp, p_utils = fi.params
-        prov = fl.Prov(fi.node, roots=[p_auth, p_stud])
-        sites = [c for c in walk_own(fi.node) if isinstance(c, ast.Call) and isinstance(c.func, ast.Name) and c.func.id == p_cmp]
-        if len(sites) < 2:
-            raise AnalysisError('compare_evaluations: expected two comparer call sites, found %d' % len(sites))
-        for c in sites:
-            corr = any(nf.match('isinstance(%s, CorrelatedComparer)' % p_cmp, a.test) is not None and br == 'body'
-                       for a, br in fl.if_chain_containing(c, fi.node))
-            construct = 'MathMixin.compare_evaluations: comparer(...) [%s]' % ('correlated' if corr else 'per sample')
-            if len(c.args) != 3 or c.keywords:
-                r.undecided(construct, 'call shape not recognised: %s' % short(c), lib.loc(fi, c))
+        p_self, p_auth, p_stud, p_cmp, p_utils = fi.params
+        understood = not idx.unreviewed
+        for corr in (True, False):
+            tag = 'correlated' if corr else 'per sample'
+            construct = 'MathMixin.compare_evaluations: comparer(...) [%s]' % tag
+            A, S, U = ['A1', 'A2', 'A3'], ['S1', 'S2', 'S3'], object()
+            calls = []
+
+            def comparer(*args, **kw):
+                calls.append((args, kw))
+                return ('verdict', len(calls))
+
+            def standardize(v):
+                return ('std', v)
+            env = {p_auth: list(A), p_stud: list(S), p_cmp: comparer, p_utils: U,
+                   'ItemGrader.standardize_cfn_return': standardize, "%s.config['debug']" % p_self: False,
+                   '__isinstance__': lambda v, tn, corr=corr: (corr if v is comparer and 'CorrelatedComparer' in tn else None)}
+            try:
+                kind, got, stmt = mev.call(fi.node, env)
+            except (mev.Unsupported, mev.ModelRaise) as e:
+                r.undecided(construct, 'compare_evaluations is outside the supported model evaluation (%s)' % e, fi.loc)
+                if not corr:
+                    r.undecided(construct + ' loop', 'not evaluated', fi.loc)
                 continue
-            _check_pair(r, construct, lib.loc(fi, c), _role_of(prov, c.args[0], p_auth, p_stud),
-                        _role_of(prov, c.args[1], p_auth, p_stud), 'the first two arguments', WHY_SWAP)
-            if not (isinstance(c.args[2], ast.Name) and c.args[2].id == p_utils):
-                r.undecided(construct + ' utils', 'third argument is not the utils parameter: %s' % short(c.args[2]), lib.loc(fi, c))
+            where = lib.loc(fi, stmt) if stmt is not None else fi.loc
+            pos = [a for a, kw in calls]
+            if any(kw for a, kw in calls) or any(len(a) != 3 for a in pos):
+                r.undecided(construct, 'comparer is not called with three positional arguments', where)
+                if not corr:
+                    r.undecided(construct + ' loop', 'not evaluated', fi.loc)
+                continue
+            want = [(A, S)] if corr else list(zip(A, S))
+            have = [(a[0], a[1]) for a in pos]
+            swapped = [(s, a) for a, s in want]
+            if have == want:
+                r.ok(construct, 'the first two arguments = (author, student)', where)
+            elif have == swapped:
+                r.violation(construct, 'the first two arguments are swapped: the student\'s value is passed where the author\'s is '
+                            'expected and vice versa; ' + WHY_SWAP, where, expected='(author, student)', found='(student, author)')
+            elif not corr and have and have == want[:len(have)]:
+                r.ok(construct, 'the first two arguments = (author, student)', where)
+            elif not corr and have and all(h in want for h in have):
+                r.ok(construct, 'the first two arguments = (author, student) sample by sample', where)
+            elif have and all(h[0] == h[1] or (h[0] in A + [A]) == (h[1] in A + [A]) for h in have) and understood:
+                r.violation(construct, 'both arguments derive from the same side (%r): the other side is not compared at all' % (have[0],),
+                            where, expected='(author, student)')
+            else:
+                r.undecided(construct, 'comparer called with %r on the model, not recognised' % (have[:3],), where)
+            if any(a[2] is not U for a in pos):
+                r.undecided(construct + ' utils', 'third argument is not the utils parameter', where)
             if not corr:
-                loop = fl.enclosing_loop(c, fi.node)
-                if loop is None:
-                    r.violation(construct, 'the per-sample comparison is no longer inside a loop over the samples', lib.loc(fi, c))
+                lc = construct + ' loop'
+                n_ok = sum(1 for h in have if h in want or h in swapped)
+                if len(have) == len(want):
+                    r.ok(lc, 'every (author, student) pair is compared', where)
+                elif len(have) < len(want) and understood:
+                    r.violation(lc, 'only %d of %d samples are compared on the model (the loop over the samples is left early or truncated): '
+                                'later samples are never compared' % (len(have), len(want)), where)
                 else:
-                    it = loop.iter if isinstance(loop, ast.For) else None
-                    if it is not None and nf.match('zip(%s, %s)' % (p_auth, p_stud), it) is not None:
-                        extra = [e for e in lib.loop_has_early_exit(loop) if not isinstance(e, ast.Raise)]
-                        r.check(not extra, construct + ' loop', 'every (author, student) pair of zip(...) is compared',
-                                'the loop over the samples is left early (`%s`): later samples are never compared'
-                                % (short(extra[0]) if extra else ''), lib.loc(fi, loop))
-                    elif it is not None and nf.match('zip(%s, %s)' % (p_stud, p_auth), it) is not None:
-                        r.ok(construct + ' loop', 'zip(student, author) (roles checked at the call)', lib.loc(fi, loop))
-                    else:
-                        r.undecided(construct + ' loop', 'iteration not recognised: %s' % short(it), lib.loc(fi, loop))
-        # every result is appended
-        apps = [c for c in lib.calls_named(fi.node, 'append')]
-        if len(apps) < len(sites):
-            r.violation('MathMixin.compare_evaluations: results', 'a comparer result is no longer collected (%d append for %d '
-                        'comparer calls)' % (len(apps), len(sites)), fi.loc)
+                    r.undecided(lc, '%d comparer calls for %d samples' % (len(have), len(want)), where)
+            # every result is collected, standardised, in order
+            if kind != 'return' or not isinstance(got, list):
+                r.undecided('MathMixin.compare_evaluations: results [%s]' % tag, 'does not return a list on the model', where)
+            elif got != [('std', ('verdict', i + 1)) for i in range(len(calls))]:
+                if len(got) < len(calls) and understood:
+                    r.violation('MathMixin.compare_evaluations: results [%s]' % tag, 'a comparer result is no longer collected (%d results for '
+                                '%d comparer calls)' % (len(got), len(calls)), where)
+                else:
+                    r.undecided('MathMixin.compare_evaluations: results [%s]' % tag, 'returned list %r not recognised' % (got[:2],), where)
         # hop 4: EqualityComparer.__call__ -> utils.within_tolerance(expected, student)
         fi = idx.func(EQC + '.__call__')
         if len(fi.params) != 4:
